@@ -39,7 +39,8 @@ ASSUMPTIONS = [
     "multiplicity 'as the SMILES denotes' = lowest multiplicity compatible with the electron count (autodE's documented convention: several unpaired electrons default to a singlet)",
     "a bond is 'aromatic in the SMILES' when it joins two lower-case atoms and RDKit perceives it aromatic; 'multiple' is the bond symbol as written",
     "path selection is compared with the predicate AS WRITTEN in Molecule._init_smiles (a metal symbol anywhere inside a bracket, so [Kr] selects init_smiles; text pinned by the translator), evaluated on the harness's own metal table",
-    "the RDKit-path correspondence terms of a string with an atom class >= 100 are skipped (reported instead as init_organic_smiles|atom-class-ge-100-drops-atom): the model takes RDKit's atom list, not the mol block",
+    "AtRdkit takes RDKit's atom list; atoms_from_rdkit_mol reads the mol block by position since f435c13 (pinned); should an atom be dropped again (class >= 100 defect) the finding "
+    "init_organic_smiles|atom-class-ge-100-drops-atom is raised and that string's RDKit-path correspondence terms are skipped",
     "the model has no crash for Builder.set_atoms_bonds on > 8 neighbours: the forced init_organic_smiles run of such strings is skipped; r_unreasonable (RDKit embedding unreasonable) is read off the observed flag",
     "forced RDKit path on metal-containing strings: only atoms/bonds/pi/stereo/classes are compared (charge and multiplicity through RDKit's radical count are not meaningful for metals and Molecule never takes that path)",
 ]
@@ -1002,5 +1003,5 @@ MANIFEST = {
                    "32 further functions hash-pinned, behaviour validated by the correspondence on every generated molecule and path).  Definitional/tripwire theorems (audit): "
                    "charge_and_multiplicity_builtin, rebuild_forgets_marks, translated_helpers_match_model, the built-in half of pi_flags_exact restate definitions and only fix statement order; "
                    "path_selection_table takes `metal` as a free boolean (its relation to the string is exercised by check_trace only).  Not modelled: Builder.set_atoms_bonds raising on "
-                   "> 8 neighbours, atoms_from_rdkit_mol's mol-block parsing (finding atom-class-ge-100), coordinates."),
+                   "> 8 neighbours, coordinates."),
 }
